@@ -5,7 +5,7 @@ import z3
 
 from .. import common, relmodel, sqlmodel, sqlprogs, templates
 from ..driver import HOLDS, INCONCLUSIVE, UNDECIDED, VIOLATION
-from ..prog import Env, IllTyped, build, cols_of, fmt, from_jsonable, ops_of, to_jsonable
+from ..prog import Env, IllTyped, build, cols_of, expression_history, fmt, from_jsonable, ops_of, to_jsonable
 from ..symx import Skip, explore
 
 PID = "C08"
@@ -74,6 +74,15 @@ def shapes(tier, seed):
                 params = {"$k": [None, None]} if "$k" in repr(node) else {}
                 add(node, params, [])
                 add(("dedup", node), params, [])
+    # engine-specific functions (only one engine kind implements them), bare and nested inside generic nodes: accepted => executes
+    A, B = sqlprogs.A, sqlprogs.B
+    for k in ("sq", "it"):
+        f = ("efn", A, k)
+        for e in (f, ("neg", f), ("add", f, B), ("mul", ("add", B, f), ("lit", 2))):
+            for node in (("calc", X, "d", e), ("sort", X, ((e, True),)), ("sel", X, ("gt", e, ("lit", "$k"))), ("sel", X, ("not", ("le", B, e))),
+                         ("sel", X, ("or", ("gt", A, B), ("inseq", A, (B, e)))), ("dedup", ("proj", ("calc", X, "d", e), ("a", "d"))),
+                         ("slice", ("sort", ("calc", X, "d", e), ((("ref", "d"), True), (A, True), (B, True), (("ref", "v"), True))), 0, 1)):
+                add(node, {"$k": [None, None]} if "$k" in repr(node) else {}, [])
     return out + iter_shapes(tier)
 
 
@@ -87,6 +96,12 @@ def iter_shapes(tier):
     for d in (1, 2):
         for labs, node, p in templates.unary_sequences(X, LC, d, "std", slice_hi=3, labels=labels):
             progs.append((node, p.params, p.cons))
+    A, B = ("ref", "a"), ("ref", "b")
+    for k in ("it", "sq"):
+        f = ("efn", A, k)
+        for e in (f, ("neg", f), ("add", f, B)):
+            for node in (("calc", X, "d", e), ("sort", X, ((e, True),)), ("sel", X, ("gt", e, ("lit", "$k1"))), ("sel", X, ("not", ("le", B, e)))):
+                progs.append((node, {"$k1": [None, None]} if "$k1" in repr(node) else {}, []))
     more = []
     for node, params, cons in progs:
         more.append((("mat", node, "m"), params, cons))
@@ -116,6 +131,7 @@ def run_iter_shape(shape):
 
     def attempt(env):
         memo = {}
+        expression_history(env, prog)
         try:
             rel = build(prog, env, memo)
         except (ColumnError, EngineError, RelationalAlgebraError):
@@ -173,6 +189,7 @@ def _phase_check(prog, bind):
     from lsst.daf.relation import ColumnError, EngineError, RelationalAlgebraError
 
     env = sqlprogs.concrete_env(prog, bind)
+    expression_history(env, prog)
     try:
         rel = build(prog, env)
     except (ColumnError, EngineError) as e:
@@ -217,6 +234,7 @@ def run_shape(shape, tier):
         env = Env(symbolic=True)
         sqlprogs.setup_leaves(ctx, env, prog, 1)
         templates.declare(ctx, env, shape["params"], shape["cons"])
+        expression_history(env, prog)
         try:
             rel = build(prog, env)
         except (ColumnError, EngineError) as e:
